@@ -67,21 +67,27 @@ Proof. vm_compute. reflexivity. Qed.
 
 (* decode (encode r) = normalise r, where normalise ONLY clamps negative history cells to zero
    (see [normalise_burndown]: every other field is returned unchanged).
-   rectangular_burndown r = shape_burndown r && aligned_burndown r:
-     shape:   every history matrix (global, per file, per developer) and the people matrix has >= 1 row, rows
-              of equal length, dimensions < 2^31; the association lists are canonical maps; ownership tables
-              belong to files that have a history; at least as many names as people histories;
-     aligned: every file history has an ownership table; exactly as many names as people histories.
+   shape_burndown r: every history matrix (global, per file, per developer) and the people matrix has >= 1 row,
+     rows of equal length, dimensions < 2^31; the association lists are canonical maps; ownership tables belong
+     to files that have a history; at least as many names as people histories (fewer: Serialize panics);
+   the two alignment conditions, as explicit boolean hypotheses:
+     every file history has an ownership table (same key lists), and
+     there are exactly as many developer names as people histories;
    in_range_burndown r: history cells < 2^32; ownership keys and counts, sampling, granularity within int32.
    The tick size is an int64 in Go and converted by nothing. *)
 Theorem C17_burndown : forall (B : Type) (marshal : burndown_msg -> B) (unmarshal : B -> option burndown_msg),
   (forall m, unmarshal (marshal m) = Some m) ->
-  forall r, rectangular_burndown r = true -> in_range_burndown r = true ->
+  forall r, shape_burndown r = true ->
+  names_eqb (map fst (bd_files r)) (map fst (bd_ownership r)) = true ->
+  (length (bd_names r) =? length (bd_people r))%nat = true ->
+  in_range_burndown r = true ->
   roundtrip_with marshal unmarshal encode_burndown decode_burndown r = Ok (normalise_burndown r).
-Proof. exact burndown_wire. Qed.
+Proof. exact burndown_wire_explicit. Qed.
 Print Assumptions C17_burndown.
 
-(* without the alignment conditions: what the round trip computes on every well-shaped result *)
+(* without the two alignment conditions: what the round trip computes on EVERY well-shaped result
+   ([image_burndown]: clamping, names cut to the number of people histories, one ownership table per file
+   history - the empty one when the input has none) *)
 Theorem C17_burndown_image : forall (B : Type) (marshal : burndown_msg -> B) (unmarshal : B -> option burndown_msg),
   (forall m, unmarshal (marshal m) = Some m) ->
   forall r, shape_burndown r = true -> in_range_burndown r = true ->
@@ -101,7 +107,7 @@ Example C17_burndown_example :
   /\ bd_global (normalise_burndown ex_burndown) = [[5; 0; 0]; [0; 4294967295; 0]; [0; 0; 0]].
 Proof. repeat split; vm_compute; reflexivity. Qed.
 
-(* FINDING (refutation of the statement on results that BurndownAnalysis.Finalize can produce):
+(* FINDING C17-K1 (refutation of the statement on results that BurndownAnalysis.Finalize can produce):
    with a people dictionary read from a file reversedPeopleDict ends with "<unmatched>" and is one longer
    than PeopleHistories; the format stores names only as the names of the people matrices, so the extra
    name is dropped. *)
@@ -117,15 +123,17 @@ Proof.
 Qed.
 Print Assumptions C17_burndown_names_refuted.
 
-(* FINDING: a file that has a history but lives on another head only has no ownership table
-   (Finalize skips it); Deserialize creates a table for every file, so an empty table appears. *)
+(* FINDING C17-K2: a file history without an ownership table comes back with an empty table, because
+   Deserialize creates a table for every file.  BurndownAnalysis.Finalize produced such results for a file
+   living on another head only; since the repair 909b314 it makes a table for every file history, so only
+   hand-made results have this shape. *)
 Theorem C17_burndown_ownership_refuted : exists r,
   shape_burndown r = true /\ in_range_burndown r = true /\
   bind (encode_burndown r) decode_burndown <> Ok (normalise_burndown r) /\
   bd_ownership r = [(n_a, [(0, 1)])] /\
   exists r', bind (encode_burndown r) decode_burndown = Ok r' /\ bd_ownership r' = [(n_a, [(0, 1)]); (n_b, [])].
 Proof.
-  exists ex_burndown_other_head. repeat split; try (vm_compute; reflexivity).
+  exists ex_burndown_no_ownership. repeat split; try (vm_compute; reflexivity).
   - vm_compute. discriminate.
   - eexists. split; vm_compute; reflexivity.
 Qed.
